@@ -144,13 +144,13 @@ type c15Ev struct {
 func (e c15Ev) String() string { return e.Kind + ":" + e.Box + "/" + e.ID }
 
 type c15Attached struct {
-	spec     c15Listener
-	name     string
-	lo, hi   int // hub position bracket of the registration
-	recv     []c15Ev
-	failed   bool // harness listener already returned its error
-	joined   bool // ws: handshake completed
-	joinErr  error
+	spec    c15Listener
+	name    string
+	lo, hi  int // hub position bracket of the registration
+	recv    []c15Ev
+	failed  bool // harness listener already returned its error
+	joined  bool // ws: handshake completed
+	joinErr error
 }
 
 // Receive / Delete make a harness listener a msghub.Listener.
